@@ -785,13 +785,16 @@ func NewHistEnv(ctx context.Context, env *Env, c *HistCase, o HistEnvOpts) (*His
 		return nil, fmt.Errorf("unknown universe %q", c.Universe)
 	}
 	init := Conf{}
+	var order []string
 	for _, sel := range c.Initial {
 		p, v := u.Resolve(sel, c.Palette)
 		if _, dup := init[p.Canon()]; !dup {
 			init[p.Canon()] = v
+			order = append(order, p.Canon())
 		}
 	}
-	init = WithImplied(init)
+	// a valid running configuration holds at most one case per choice
+	init = WithImplied(FilterOneCasePerChoice(order, init))
 	dev := NewDevice(init)
 	dso := o.DS
 	if dso.Name == "" {
